@@ -183,8 +183,7 @@ def table_agreement(check, W):
                     check.ok("R5", f"{m!r} -> {instr.v}")
                 else:
                     check.violation("R5", f"table:{m.cls}.{m.name}", f"the table maps {m!r} to {instr!r}; RS274/Marlin: {want}", ["gscrib/codes/gcode_mappings.py"])
-    if n < 50:
-        raise AnalysisError(f"C07.R5: only {n} table entries found by interpreting gcode_mappings (floor 50)")
+    check.floor(not (n < 50), f"C07.R5: only {n} table entries found by interpreting gcode_mappings (floor 50)")
     return n
 
 
@@ -196,8 +195,7 @@ def run(check, repo, tier):
     check.rule("R5", "instruction table: RS274 agreement for every entry, totality for every member a command looks up")
     cr = CommandRun(repo, tier=tier, exclude=("write",), cm_body=("pass",), with_invalid=False)
     results = cr.run(analyse)
-    if cr.stats["commands"] < 40:
-        raise AnalysisError(f"C07: only {cr.stats['commands']} public commands analysed (floor 40)")
+    check.floor(not (cr.stats["commands"] < 40), f"C07: only {cr.stats['commands']} public commands analysed (floor 40)")
     counts = {}
     for r in results:
         for it in r["items"]:
@@ -212,8 +210,7 @@ def run(check, repo, tier):
         if len(check.samples) < 8 and r["items"]:
             check.sample({"command": r["command"], "context": r["ctx"], "abstract_paths": r["paths"], "obligations": len(r["items"])})
     for rid, floor in (("R1", 40), ("R2", 100), ("R3", 50), ("R4", 100)):
-        if counts.get(rid, 0) < floor:
-            raise AnalysisError(f"C07.{rid}: only {counts.get(rid, 0)} obligations decided (floor {floor})")
+        check.floor(not (counts.get(rid, 0) < floor), f"C07.{rid}: only {counts.get(rid, 0)} obligations decided (floor {floor})")
     n = table_agreement(check, cr.world)
     check.analysed = dict(cr.stats, table_entries=n)
     check.coverage["exhaustive"] = tier == "thorough"
